@@ -20,7 +20,7 @@ import wpull.protocol.abstract.stream as wastream
 from wpull.network.pool import ConnectionPool
 from wpull.network.connection import Connection
 from wpull.network.dns import Resolver
-from wpull.errors import NetworkError, ProtocolError
+from wpull.errors import NetworkError, ProtocolError, ServerError, SSLVerificationError
 from wpull.protocol.http.client import Client as HTTPClient
 from wpull.protocol.http.request import Request
 
@@ -151,7 +151,7 @@ def execute(tape, script, r, seg_mode=None, vary_latency=True, timeout=60.0):
                         yield from session.download(f)
                         out['fields'] = [(n.lower(), v) for n, v in response.fields.get_all()]
                         out['ok'] = True
-                except (NetworkError, ProtocolError) as e:
+                except (NetworkError, ProtocolError, ServerError, SSLVerificationError) as e:
                     out['error'] = 'ProtocolError' if isinstance(e, ProtocolError) else 'NetworkError'
                     out['error_type'] = type(e).__name__
                     out['error_msg'] = str(e)[:200]
